@@ -27,6 +27,8 @@
      CancelPropagates   caller cancel not ending in CancelledError, or CancelledError without cancel
      CancelSwallowedNestedTimer   the named deviation: total timer and caller cancel both hit the
                         victim while it awaits the response head (nested TimerContext) -> TimeoutError
+     ReadTimerRearmedAfterEof     the named deviation: the victim succeeded, its connection is back
+                        in the pool and the protocol's sock_read timer is (still) armed
      NoResidue          first idle observation after the victim ended: transport / socket open,
                         handle held, task running, timer pending, DNS waiter left, or a faulted
                         connection handed to somebody else
@@ -59,6 +61,7 @@ Residue(o) ==
     ELSE IF o.loosesocks # <<>> THEN "socket-open"
     ELSE IF o.held["v"] # -1 THEN "handle-held"
     ELSE IF o.tasks # <<>> THEN "task-running"
+    ELSE IF o.timers # <<>> /\ o.st["v"] = "ok" /\ Rng(o.timers) = {"read"} THEN "read-timer-rearmed"
     ELSE IF o.timers # <<>> THEN "timer-pending"
     ELSE IF o.dnsw > (IF o.st["b"] = "pending" /\ o.ph["b"] = "waiting" THEN 1 ELSE 0) THEN "dns-waiter"
     ELSE ""
@@ -79,6 +82,8 @@ Clause(p, e, c, rd) ==
               THEN <<"CancelSwallowedNestedTimer", o.st["v"]>>
               ELSE <<"CancelPropagates", o.st["v"]>>
     ELSE IF vEndsNow /\ o.st["v"] = "error" /\ ~o.fault THEN <<"UnexpectedError", "">>
+    ELSE IF Ended(o.st["v"]) /\ o.idle /\ ~rd /\ Residue(o) = "read-timer-rearmed"
+         THEN <<"ReadTimerRearmedAfterEof", "sock_read timer pending on the pooled connection">>
     ELSE IF Ended(o.st["v"]) /\ o.idle /\ ~rd /\ Residue(o) # "" THEN <<"NoResidue", Residue(o)>>
     ELSE IF \E q \in DOMAIN o.held : q # "v" /\ o.held[q] # -1 /\ o.held[q] \in Rng(o.faulted)
          THEN <<"NoResidue", "faulted-connection-reused">>
